@@ -47,13 +47,71 @@ def run(ctx) -> None:
     ctx.rule("C02.rule", "T1/T8: a changed rule object is followed by update_genes_from_gpr; rule objects are not shared between reactions", floor=9)
     ctx.rule("C02.zero", "T1: every edit of coefficients reaches the zero-coefficient clean-up", floor=3)
     ctx.rule("C02.checked", "T4: model lists are extended only through the checking DictList API", floor=10)
+    from . import eqform
+
+    ctx.rule("C02.equation", "finite evaluation: the equation parser/writer set net coefficients and direction as the string says", floor=2)
+    ctx.guard(eqform.check_equation, ctx, "C02.equation")
     check_backref(ctx)
     check_attach(ctx)
     check_owner(ctx)
+    ctx.guard(check_groups, ctx)
     check_index(ctx)
     check_rule(ctx)
     check_zero(ctx)
     check_checked(ctx)
+
+
+def check_groups(ctx) -> None:
+    """An object that leaves a model list leaves the model's groups on the same pass: in each removal function every
+    path through the per-object loop body passes the group dissociation (T1 must-pass-through per iteration)."""
+    prog = ctx.prog
+    for mod, short in (("cobra.core.model", "Model.remove_metabolites"), ("cobra.core.model", "Model.remove_reactions"), ("cobra.manipulation.delete", "remove_genes")):
+        fn = prog.func(mod, short)
+        g = ctx.flow.cfg(fn)
+        calls = [n for n in walk_local(fn.node) if isinstance(n, ast.Call) and norm(n.func).endswith("get_associated_groups") and n.args]
+        if not calls:
+            ctx.bad("C02.owner", fn, fn.node, f"{short} does not take the removed objects out of the model's groups")
+            continue
+        for c in calls:
+            obj = norm(c.args[0])
+            loop = None
+            for a in ancestors(c):
+                if a is fn.node:
+                    break
+                if isinstance(a, ast.For) and any(isinstance(t, ast.Name) and t.id == obj for t in ast.walk(a.target)):
+                    loop = a
+                    break
+            if loop is None:
+                ctx.bad("C02.owner", fn, c, f"the group dissociation of `{obj}` is not inside the loop over the removed objects")
+                continue
+            head = [x for x in g.nodes if x.kind == "loop" and x.ast is loop.iter]
+            blockers = {x for x in g.node_containing(c) if x.kind != "with_exit"}
+            first = loop.body[0]
+            body_first = [x for x in g.nodes if x.ast is not None and (x.ast is first or x.ast is getattr(first, "test", None) or x.ast is getattr(first, "iter", None) or x.ast is getattr(first, "value", None))]
+            if not head or not body_first:
+                raise AnalysisError(f"{short}: loop nodes not found in the flow graph")
+            # the removal branch only: iterations that skip the object altogether (e.g. `not in the model`) are not removals
+            w = None
+            if not any(b in blockers for b in body_first):
+                seen = g.reach(body_first, avoid=lambda x: x in blockers, edge_ok=no_exc, include_start=True)
+                for h in head:
+                    if h in seen:
+                        w = g.path_to(seen, h)
+                        break
+            if w is not None and _path_removes(ctx, fn, w):
+                ctx.bad("C02.owner", fn, c, f"an iteration of {short} can finish without taking `{obj}` out of the model's groups: a group then lists an object that is no longer in the model", path=describe_path(w))
+            else:
+                ctx.ok("C02.owner", fn, c, f"every iteration that removes `{obj}` also takes it out of its groups")
+
+
+def _path_removes(ctx, fn: FuncInfo, path) -> bool:
+    """The path does something to the object (it is not an iteration that merely skips it)."""
+    for n in path:
+        if n.ast is None or n.kind not in ("stmt",):
+            continue
+        if isinstance(n.ast, (ast.Assign, ast.AugAssign, ast.Expr, ast.For)) and not (isinstance(n.ast, ast.Expr) and isinstance(n.ast.value, ast.Call) and norm(n.ast.value.func) in ("warn", "logger.warning")):
+            return True
+    return False
 
 
 def _recv(ctx, fn: FuncInfo, e: Optional[ast.AST]) -> str:
